@@ -18,7 +18,7 @@ RULE = ('evaluate: every token sequence up to the bound over 1 2 .5 7 + - * / \\
 ASSUMPTIONS = ['reference evaluator: unary +/- tightest, then * / \\ (left to right), then + - (left to right), \\ = floor of quotient',
                'chains mixing \\ with * or / without parentheses are outside the statement: only their exception type is checked',
                'a number is digits[.digits] or .digits; "1." is not a documented number form: only the exception type is checked',
-               'blanks between tokens are accepted; a trailing blank is not part of an expression "built from numbers, operators, signs and parentheses" (only the exception type is checked)',
+               'blanks between and around tokens are accepted',
                'extract positions 0..len (None = len); out-of-range positions are outside the statement',
                'the look-ahead adjusted position = the caret, or - look-ahead on and a `)` at the caret - the position after that `)` and the run of `)` and blanks '
                '(blank, tab, nbsp, CR, LF: the set the backward scan accepts inside an expression) that follows it; the range must end exactly there']
@@ -139,11 +139,12 @@ def ref_eval(s):
             return x * y
         if k == '/':
             return x / y
-        return math.floor(x / y)
+        q = x / y
+        return math.floor(q) if math.isfinite(q) else q      # an overflown quotient stays what `/` gives
 
     undoc = [False]
-    if not toks or s[-1] in ' \t\xa0':
-        raise Undoc()       # empty / blank / trailing blank: not "built from numbers, operators, signs, parentheses"
+    if not toks:
+        raise Undoc()       # empty / blank: not "built from numbers, operators, signs, parentheses"
     ast = expr()
     if p[0] != len(toks):
         raise Malformed()
@@ -209,7 +210,7 @@ def check_eval(s, cls, ctx, api):
     if exp[0] == 'v':
         ctx.mon('oracle:value')
         ok = act[0] == 'v' and isinstance(act[1], (int, float)) and not isinstance(act[1], bool) and \
-            (act[1] == exp[1] or abs(act[1] - exp[1]) <= 1e-9 * max(1.0, abs(exp[1])))
+            (act[1] == exp[1] or (act[1] != act[1] and exp[1] != exp[1]) or abs(act[1] - exp[1]) <= 1e-9 * max(1.0, abs(exp[1])))
         if not ok:
             ctx.violation('wrong-value', case, {'expected': exp[1], 'actual': list(act)})
         elif len(ctx.samples) < 3 and len(s) >= 5:
@@ -351,6 +352,10 @@ def run_shard(desc, ctx):
             # integer division where the quotient is a whole number that binary floating point cannot represent exactly on the way
             A = ['1', '2', '3', '0.5', '.3', '10', '7', '0.7', '1.1', '0.6', '4.5', '100', '.9', '2.4']
             B = ['.1', '.2', '0.05', '.3', '0.7', '1.1', '.5', '0.25', '3', '7', '0.6', '.4', '1.5', '0.15']
+            big = '1' + '0' * 400
+            for s in (big + '\\1', '(' + '9' * 400 + '-' + '9' * 400 + ')\\1', big + '/1', big + '*2', '-' + big + '\\3', '1\\' + big, big + '-' + big, '(' + big + '\\1)*0', big + '\\' + big,
+                      '1 ', ' 1 ', '1+2  ', '(1 ) ', '1\t', '2*3 \xa0'):
+                check_eval(s, 'eval:intdiv', ctx, api)
             for a in A:
                 for b in B:
                     for s in (a + '\\' + b, '-' + a + '\\' + b, a + '\\-' + b, '(' + a + '+' + a + ')\\' + b, a + ' \\ ' + b + '+1', '-(' + a + '\\' + b + ')', a + '\\' + b + '\\' + b, a + '*10\\(' + b + '*10)'):
